@@ -23,11 +23,22 @@ def gen(rng, n):
             d["IDLE_MS"] = 3000
             d["MAX_TIME"] = 10_000_000
         elif m == 2:    # migration
-            d["STREAM_BYTES"] = rng.choice([20000, 50000])
-            d["MIGRATE_AT"] = rng.choice([40000, 70000, 150000])
+            d["STREAM_BYTES"] = rng.choice([20000, 50000, 300000])
+            d["MIGRATE_AT"] = rng.choice([40000, 70000, 150000, 250000])
             d["MIGRATE_KIND"] = rng.below(2)
-            if rng.chance(1, 2):
-                d["SERVER_STREAMS"] = 1
+            if rng.chance(2, 3):
+                # the server is in the middle of a download when the client's address changes: it
+                # has far more queued than three times what the new address has sent
+                d["SERVER_STREAMS"] = rng.range(1, 2)
+                d["NBIDI"] = 1
+                d["ECHO_BYTES"] = rng.choice([0, 100000])
+                d["DELAY_MIN"] = d["DELAY_MAX"] = rng.choice([5000, 10000, 30000])
+                # both directions still busy when the address changes (the client keeps sending
+                # non-probing packets from the new address; the server has megabytes queued)
+                d["STREAM_BYTES"] = rng.choice([300000, 1000000])
+                d["WRITE_CHUNK"] = 100000
+                d["READ_MAX"] = 100000
+                d["MIGRATE_AT"] = 2 * d["DELAY_MIN"] * rng.range(4, 9)
         elif m == 3:    # garbage
             d["GARBAGE"] = rng.choice([100, 500])
             d["REPLAY"] = rng.choice([0, 200])
